@@ -115,6 +115,12 @@ func (c *ConfigEntry) shouldSkipOperation(args *structs.ConfigEntryRequest) (boo
 
 	switch args.Op {
 	case structs.ConfigEntryUpsert, structs.ConfigEntryUpsertCAS:
+		if args.Op == structs.ConfigEntryUpsertCAS && currentEntry != nil &&
+			currentEntry.GetRaftIndex().ModifyIndex != args.Entry.GetRaftIndex().ModifyIndex {
+			// A check-and-set with an index that does not match must be reported
+			// as failed, even when the content is identical: let the FSM decide.
+			return false, nil
+		}
 		return c.shouldSkipUpsertOperation(currentEntry, args.Entry)
 	case structs.ConfigEntryDelete, structs.ConfigEntryDeleteCAS:
 		return (currentEntry == nil), nil
